@@ -265,8 +265,14 @@ func init() {
 		},
 		"math/rand.Uint64": func(m *Machine, c *frame, fn *ssa.Function, a []value) value { return m.fresh("rand.Uint64", 64) },
 		"math/rand.Int":    func(m *Machine, c *frame, fn *ssa.Function, a []value) value {
+			// 63-bit random identifiers: assumed not to collide with earlier draws on the same path
 			t := m.fresh("rand.Int", 64)
-			m.assume(tCmp("bvsge", t, mkConst(64, 0)))
+			cond := tCmp("bvsge", t, mkConst(64, 0))
+			for _, p := range m.randInts {
+				cond = tAnd(cond, tNot(tEq(t, p)))
+			}
+			m.randInts = append(m.randInts, t)
+			m.assume(cond)
 			return t
 		},
 		"math/rand.Seed": func(m *Machine, c *frame, fn *ssa.Function, a []value) value { return nil },
